@@ -26,10 +26,10 @@ NOT_DECIDED = ["parsing exactness of every reader", "memory protection distribut
 ASSUMPTIONS = ["an inode number identifies a cgroup directory for as long as a descriptor to it is held"]
 
 
-SWAP_SCHEME = (  # getter, accessor used on the parent, combiner
-    ("getEffectiveSwapMax", "effective_swap_max", "std::min"),
-    ("getEffectiveSwapFree", "effective_swap_free", "std::min"),
-    ("getEffectiveSwapUtilPct", "effective_swap_util_pct", "std::max"),
+SWAP_SCHEME = (  # getter, accessor used on the parent, combiner, this level's own term
+    ("getEffectiveSwapMax", "effective_swap_max", "std::min", r"\*this->swap_max\(param:err\)"),
+    ("getEffectiveSwapFree", "effective_swap_free", "std::min", r"\(\*this->swap_max\(param:err\) - \*this->swap_usage\(param:err\)\)"),
+    ("getEffectiveSwapUtilPct", "effective_swap_util_pct", "std::max", r"\(\*this->swap_usage\(param:err\) / \*this->swap_max\(param:err\)\)"),
 )
 # local-only results that are intended (reason)
 SWAP_LOCAL_OK = {("getEffectiveSwapUtilPct", "0", "(*swap_max_opt == 0)"): "a cgroup that cannot swap (swap.max = 0) reports 0 % by definition (CgroupContextTest.EffectiveSwapUtilPct)"}
@@ -40,7 +40,7 @@ def effective_swap_scheme(ctx):
     combine(parent's effective value, local value) - no path may answer from the local level alone."""
     P, cg = ctx.prog, ctx.cg
     n = 0
-    for getter, acc, comb in SWAP_SCHEME:
+    for getter, acc, comb, local_rx in SWAP_SCHEME:
         f = ctx.fn1("Oomd::CgroupContext::" + getter)
         ctx.use(f)
         fl = Flow(P, f, cg=cg)
@@ -59,7 +59,11 @@ def effective_swap_scheme(ctx):
             parent = "*this->ctx_.addToCacheAndGet(this->cgroup_.getParent())->get().%s(param:err)" % acc
             if t.startswith(comb + "(") and parent in t:
                 folds += 1
-                ctx.ok("swap-fold:%s@%d" % (getter, f.nodes[r].get("line", 0)), "recursion scheme (sibling agreement)", f.loc(r), "%s(parent's %s, local value)" % (comb, acc))
+                rest = t[len(comb) + 1:-1].replace(parent, "", 1).strip(", ")
+                ctx.check(re.match("^" + local_rx + "$", rest) is not None, "swap-fold:%s@%d" % (getter, f.nodes[r].get("line", 0)), "recursion scheme (sibling agreement)", f.loc(r),
+                          "%s(parent's %s, this level's own value)" % (comb, acc),
+                          "%s combines the parent's %s with '%s', which is not this level's own value (own swap.max / swap.current only): limits or usage of "
+                          "another level leak into this level's term" % (getter, acc, rest[:90]))
                 continue
             okl = [why for (gg, val, cond), why in SWAP_LOCAL_OK.items() if gg == getter and val == t and any(k == cond and p is True for k, p in g)]
             ctx.check(bool(okl), "swap-fold:%s@%d" % (getter, f.nodes[r].get("line", 0)), "recursion scheme (sibling agreement)", f.loc(r),
